@@ -140,6 +140,9 @@ func (t *waitRT) maybeScheduleCancelLocked() {
 	if t.wide && t.firstSeen < t.nItems {
 		return
 	}
+	if t.sc.Kind == "neardeadline" {
+		return // the context expires by itself (watchExpiry records when)
+	}
 	t.timer = time.AfterFunc(time.Duration(t.sc.CancelDelayMs)*time.Millisecond, func() {
 		t.mu.Lock()
 		t.cancelAt = time.Now()
@@ -324,6 +327,14 @@ func runWaitOnce(sc *WaitScenario) (res waitRun) {
 		t.timer.Stop()
 	}
 	t.mu.Unlock()
+	if sc.Kind == "neardeadline" {
+		// the moment the real deadline fired is the moment of the cancellation
+		if dl, ok := e.context().Deadline(); ok && e.context().Err() != nil {
+			t.mu.Lock()
+			t.cancelAt, t.cancelled = dl, true
+			t.mu.Unlock()
+		}
+	}
 	if e.ctx == nil {
 		e.realStop()
 	}
@@ -550,7 +561,11 @@ func genC20(r *rng, thorough bool, emit func(WaitScenario)) {
 			}
 			// cancellation 30 ms after attempt 0 failed (fast and slow failing attempt)
 			for _, slow := range []bool{false, true} {
-				sc := waitLeafScenario(t, pickKind(r), cfg, N, sleepsFor(r, slow, N, N+1), []int{1}, "hour-cut")
+				kind := pickKind(r)
+				if !slow && r.chance(40) {
+					kind = "neardeadline" // a real deadline that expires inside the 1-hour wait (the attempt before it fails at once)
+				}
+				sc := waitLeafScenario(t, kind, cfg, N, sleepsFor(r, slow, N, N+1), []int{1}, "hour-cut")
 				sc.PromptMs, sc.WatchMs = 2500, 5000
 				emit(sc)
 			}
@@ -607,7 +622,11 @@ func genC20(r *rng, thorough bool, emit func(WaitScenario)) {
 						wcs[0], wcs[1] = wcs[1], wcs[0]
 					}
 				}
-				bsc := waitBatchScenario(t, pickKind(r), batchCfg(N, hourMs, conc, conc < 2 && r.chance(30)), fs, slow, wcs, "batch-hour-cut")
+				kind := pickKind(r)
+				if !slow && r.chance(40) {
+					kind = "neardeadline"
+				}
+				bsc := waitBatchScenario(t, kind, batchCfg(N, hourMs, conc, conc < 2 && r.chance(30)), fs, slow, wcs, "batch-hour-cut")
 				bsc.PromptMs, bsc.WatchMs = 2500, 5000
 				emit(bsc)
 			}
